@@ -205,10 +205,18 @@ def table_get_slices(ctx):
     if n < 3:
         ctx.unrec(R, 'branches', ctx.where(fa), found=n, reason='expected the enum, bytes and plain decode branches')
     # index = arange(lo, lo + len(first column))
-    idx = [e for e in events(fa, 'assign') if e.name == 'index' and e.value != T.NONE]
+    # (found through its consumer - the index= argument of the frame / series that is returned -
+    # not through the name of a local variable)
+    idx_terms = []
+    for r0 in returns(fa):
+        for x in T.walk(r0.value):
+            if x[0] == 'call' and x[1] in (G('pd.DataFrame'), G('pd.Series')):
+                it = T.get_kw(x, 'index')
+                if it is not None:
+                    idx_terms.append(it)
     pat = spec(ctx.repo, 'np.arange(lo, lo + len(Q_first))', {'lo': V('lo')}, 'cooler.core._tableops')
-    ok = any(T.match(pat, e.value) is not None for e in idx)
-    ctx.check(ok, R, 'index', ctx.where(fa, idx[0] if idx else None), found=[T.show(e.value) for e in idx],
+    ok = bool(idx_terms) and all(any(T.match(pat, y) is not None for y in T.walk(it)) for it in idx_terms)
+    ctx.check(ok, R, 'index', ctx.where(fa), found=[T.show(t)[:120] for t in idx_terms],
               expected='np.arange(lo, lo + len(<first column>))', reason='rows are labelled with their row numbers')
     # the loop ranges over all requested fields
     for L in fa.loops.values():
